@@ -1489,3 +1489,52 @@ def renumbered_builder(ctx, rule, body, g, index_of=None, what="", outer="derive
     ctx.ob(rule, b.name, "renumbered op / v" + what, "ok" if not bad else "violation",
            "op'(i, d) = src2img[ds.op(I(i), img2src[d])], v'(i, d) = ds.v(I(i), I(i + 1), img2src[d])" if not bad else bad)
     return maps
+
+
+def reachable_sites(body, g, sites, valuation, limit=300):
+    """which of the blocks `sites` can be reached when the opaque sub-terms of the branch conditions take the values given by
+    `valuation(term) -> int | None` (None = not fixed: the condition may go either way).  Path conditions of all acyclic paths from the entry."""
+    out = set()
+    for bb in sites:
+        for tg, ats in paths_to(body, 0, {bb}, g=g, limit=limit):
+            ok = True
+            for a in ats:
+                if is_ovf_atom(a) or a[0] not in ("rel", "bool"):
+                    continue
+                a = atom_norm(a, g)
+                env = {}
+                for y in subterms(("agg", "x", tuple(x for x in a[1:] if isinstance(x, tuple)))):
+                    if isinstance(y, tuple) and y:
+                        v = valuation(y)
+                        if v is not None:
+                            env[y] = v
+                c = eval_atom_env(a, env)
+                if c is None:
+                    continue
+                if not c:
+                    ok = False
+                    break
+            if ok:
+                out.add(bb)
+                break
+    return out
+
+
+def chamber_tables(ctx, rule, body, g, fill=0):
+    """tables indexed by chamber numbers 1..=size are created as vec![0; size() + 1] (slot 0 unused, 0 = no entry yet): evaluated for size 7 the
+    length must be 8 - one less reads past the end at the last chamber, the fill value 0 is what `no entry yet` is tested against"""
+    b = body
+    n = 0
+    for bi, t in b.calls("vec::from_elem"):
+        a = [strip(norm(b.origin(x), g)) for x in t["args"]]
+        szs = [y for y in subterms(a[1]) if isinstance(y, tuple) and y and ((y[0] == "call" and y[1].endswith("::size")) or (y[0] == "field" and y[2] == "size"))]
+        if not szs:
+            continue
+        n += 1
+        ln = eval_term_env(unov_deep(fold_std_ops(a[1])), {y: 7 for y in szs})
+        fv = eval_int(a[0])
+        ok = ln == 8 and fv == fill
+        ctx.ob(rule, b.name, "vec![%s; size() + 1]" % fill, "ok" if ok else "violation",
+               "a chamber-indexed table has size() + 1 slots filled with %s" % fill if ok else
+               "a chamber-indexed table is created with %s slots (for size 7) filled with %s: it must have size() + 1 = 8 slots (chambers are numbered from 1) filled with %s (= no entry yet)" % (ln, fv, fill), b.span_of(bi))
+    return n
